@@ -103,7 +103,9 @@ T_Yield == /\ IsEvent("yield")
               THEN /\ G("y.cur", cur = t /\ t \in Actor)
                    /\ G("y.script", IsYieldStep(t))
                    /\ RunLoop(t)
-              ELSE /\ G("y.op", cur = t /\ yl)
+              \* (an operation's scheduling point - the shim's yield at a registry lock.  One that the specification does not
+              \* expect here, e.g. an extra read-lock probe, is only that: the task stays runnable and is judged by its results)
+              ELSE /\ G("y.op", cur = t)
                    /\ UNCHANGED vars
 
 \* an actor with a handler timeout is inside stopped(): a clock mismatch now points at a deadline armed for the callback
@@ -135,6 +137,10 @@ ResGuard(op, L) == IF L.a \in Actor /\ act[L.a].pc = "failed"
                    THEN (IF op \in {"stopped", "running", "try_from_registry", "already_running"} THEN "oe.res." \o op \o ".failed"
                          ELSE "oe.res.failed." \o act[L.a].why)
                    ELSE "oe.res." \o op
+LastMatchesCtx(op, L, sfx) ==
+                      /\ G(IF sfx # "" THEN "oe.res." \o op \o sfx ELSE ResGuard(op, L), L.res = E.res)
+                      /\ G("oe.val." \o op, L.res \notin {"ok", "some"} \/ (L.pos = E.pos /\ L.inst = E.inst))
+                      /\ G("oe.actor." \o op, E.a = "*" \/ L.a = E.a)
 LastMatches(op, L) == /\ G(ResGuard(op, L), L.res = E.res)
                       /\ G("oe.val." \o op, L.res \notin {"ok", "some"} \/ (L.pos = E.pos /\ L.inst = E.inst))
                       /\ G("oe.actor." \o op, E.a = "*" \/ L.a = E.a)
@@ -155,7 +161,10 @@ T_OpEnd == /\ IsEvent("op_end")
                       /\ ClientCont(c) /\ cur' = cur /\ yl' = FALSE
                       /\ G(IF cli[c].stage = "reglock" /\ cli[c].arg.ty \in DOMAIN reg.ent /\ act[reg.ent[cli[c].arg.ty]].pc = "failed" THEN "oe.done.failed" ELSE "oe.done",
                            cli'[c].stage = "idle")
-                      /\ LastMatches(cli[c].op, cli'[c].last)
+                      \* (a registry operation that finds a FAILED instance registered: a wrong answer means the failure is not seen)
+                      /\ LastMatchesCtx(cli[c].op, cli'[c].last,
+                                        IF cli[c].stage = "reglock" /\ cli[c].arg.ty \in DOMAIN reg.ent /\ act[reg.ent[cli[c].arg.ty]].pc = "failed"
+                                        THEN ".entryfailed" ELSE "")
 
 T_Cb == /\ IsEvent("cb")
         /\ LET a == E.task IN
